@@ -19,6 +19,8 @@ def run(ctx):
     # lookup by embedded identifier uses the identifiers the library reports (shared with C02)
     from rules import sig
     sig.s02_4_identity(ctx, P)
+    sig.s02_10_result_slot_same_iteration(ctx, P)
+    sig.s02_11_every_key_tries_every_signature(ctx, P)
     forwarders(ctx, P)
     tables(ctx, P)
     embedding(ctx, P)
